@@ -6,7 +6,8 @@ for p in $(python3 -c "import json;print(' '.join(json.loads(l)['id'] for l in o
   out=$(./check $p --no-evidence 2>&1 | tail -1); echo "$out"
   echo "$out" | grep -q " 0 violations" || fail=1
 done
-python3 engine/mutants.py --jobs ${JOBS:-12} | grep -v "^killed\|^silent" || true
+mo=$(python3 engine/mutants.py --jobs ${JOBS:-12}); echo "$mo" | grep -v "^killed\|^silent" || true
+echo "$mo" | grep -q "^SURVIVED\|anchor-missing\|does-not-compile" && fail=1
 for d in seeded/*/; do
   n=$(basename $d); p=$(python3 -c "import json;print(json.load(open('$d/meta.json'))['property'])")
   r=$(python3 engine/seedeval.py $n $p $d 2>&1 | tail -1); echo "$n: $r"
